@@ -136,6 +136,19 @@ CLAIMED = {
    note="create_learners / adaptive learners are not driven in this round (the fixed_indices half of the property is "
         "covered). Sequential execution; axis size 3; stored observed independently of pipefunc.",
    technique="TLA+ selection semantics + run history model; TLC-enumerated partitions replayed; TLC trace validation"),
+ "C13": dict(
+   category="model_checking", design_ref="6 C13",
+   text="Map side: MC_MapRun with one designated failing invocation; TLC explores every interleaving (which siblings have "
+        "finished when the failure is observed), checks NoLaterGeneration and, under weak fairness, the liveness property "
+        "Terminates, and prints the behaviours as schedule scripts; the controllable executor realises them on every storage "
+        "via map and map_async, a sequential run and real thread/process pools are added, five exception types (builtin "
+        "with/without args, custom picklable, custom with __reduce__ state); TLC validates each recorded run (TraceMapRun: "
+        "same class and args at the caller, note naming the failing function and kwargs, nothing of a later generation, "
+        "earlier-generation results of file storage still loadable = denotation); ErrorSnapshot.reproduce() before and after "
+        "save/load must raise the same exception. Call side: random DAGs with one failing function, TracePipelineFail.tla.",
+   note="Liveness in the code is a 600 s watchdog; in the model a TLC liveness check. Loadability after a failure is only "
+        "claimed for file storage (memory storages persist at the end of a run by design).",
+   technique="TLC-enumerated failure schedules replayed via controllable executor; TLC trace validation; TLC liveness check"),
 }
 NOT_YET = "check not built yet in this round (specification module planned in DESIGN.md section 6)"
 
